@@ -24,7 +24,7 @@ SAME = {
 class C43(core.Prop):
     id = "C43"
     drivers = ["mc_peek", "s4u_interp"]
-    ready = False
+    ready = True
     max_workers = 6
     sizes = {"quick": 120, "thorough": 4000}
     technique = ("property-based testing (Hypothesis): round trip of every observable simcall through the application's serializer and "
@@ -156,10 +156,12 @@ class C43(core.Prop):
         r = mcrun.McResult(case["scenario"], r0)
         oc.evals += 1
         oc.labels.append("simgrid-mc")
-        exc = re.search(r"Uncaught exception ([\w:]+)", r0.err)
+        exc = re.search(r"Uncaught exception ([\w:]+?):? (\S+)", r0.err)
         frames = re.findall(r"#\d+ (simgrid::[\w:]+)\(", r0.err)
         frames = [f for f in frames if "xbt::handler" not in f and "Channel::" not in f]
-        where = (exc.group(1).rstrip(":") if exc else "signal") + "@" + (frames[0] if frames else "?")
+        # signature: exception type + first word of its message (the backtrace is not always printed: not part of the signature)
+        where = (exc.group(1).rstrip(":") + ":" + exc.group(2).rstrip(":") if exc else "signal")
+        first_frame = frames[0] if frames else "?"
         clear_error = any(s in r0.err for s in ("is not supported", "not implemented", "Unsupported", "unsupported"))
         if hang:
             oc.bad("checker-hangs:" + case["kind"], "simgrid-mc (max-depth 40) on a program of kind %s: the checker and the application all sleep "
@@ -168,8 +170,8 @@ class C43(core.Prop):
         elif r0.cpu_exceeded:
             oc.labels.append("simgrid-mc-budget")      # a large state space, not a hang
         elif r0.rc != 0 and exc is not None and not (r.deadlock or r.assertion):
-            oc.bad("checker-crash:" + where, "simgrid-mc died of an uncaught exception (status %s): %s; log: %s"
-                   % (r0.rc, where, "\n".join(l for l in r0.err.splitlines() if "Uncaught" in l)[:600]))
+            oc.bad("checker-crash:" + where, "simgrid-mc died of an uncaught exception (status %s) in %s; log: %s"
+                   % (r0.rc, first_frame, "\n".join(l for l in r0.err.splitlines() if "Uncaught" in l)[:600]))
         elif r0.rc < 0:
             oc.bad("checker-crash:" + where, "simgrid-mc died on signal %d; log tail: %s" % (-r0.rc, r.tail()))
         elif not (r.ended or r.deadlock or r.assertion or clear_error or "depth" in r0.err):
